@@ -24,7 +24,7 @@ MODES = [("strict", None)] + [("require", ps) for ps in (["day"], ["month"], ["y
 PCS = {
     "absolute": (["absolute-time"], None),
     "default-minus-relative": (["timestamp", "custom-formats", "absolute-time"], None),
-    "custom-formats": (["custom-formats", "absolute-time"], ["%d %B %Y", "%B %Y", "%Y-%m-%d", "%d %B", "%H:%M", "%d %Y", "%d %Y %H:%M"]),
+    "custom-formats": (["custom-formats", "absolute-time"], ["%d %B %Y", "%B %Y", "%Y-%m-%d", "%d %B", "%H:%M", "%d %Y", "%d %Y %H:%M", "%Y %W %a", "%Y %U %w", "%a %W %Y", "%Y %W"]),
 }
 _S = None
 
@@ -55,6 +55,8 @@ def degenerate():
                     if "{d}" not in lay and d != "15" or "{m}" not in lay and m != "11" or "{y}" not in lay and y != "2015":
                         continue
                     out.add(lay.format(d=d, m=m, y=y, mon="nov"))
+    # week-number spellings: a year, a week and a weekday state neither a month nor a day of the month
+    out.update(["2018 41 Fri", "2018 41 5", "2015 01 Mon", "Fri 41 2018", "2018-W41-5", "2018 41"])
     return sorted(out)
 
 
